@@ -37,6 +37,7 @@ type Prog struct {
 	fidx          *fieldIndex
 	rolesCache    *Roles
 	reach         map[*ssa.Function]bool
+	batchCache    []*batchModel
 	staticCallers map[*ssa.Function][]ssa.CallInstruction
 }
 
